@@ -2,6 +2,7 @@
 from __future__ import annotations
 
 import corr_duplication
+import corr_semcond
 import semcheck
 import tgen
 import semprop
@@ -17,9 +18,13 @@ def corr(rng, quick):
     return corr_duplication.run(rng, 60 if quick else 2500, corpus_limit=60 if quick else None)
 
 
+def semcond(rng, quick):
+    return corr_semcond.run(rng, 50 if quick else 1500, corpus_limit=15 if quick else None)
+
+
 def run(ctx) -> int:
     flags = [semcheck.flags_only("duplication")]
-    return _generic.run_semantic(ctx, MODULE, LEVEL, RULE, flags, 'voc', {'literal_duplication', 'ast'}, EXTRA, (110, 700), (80, 3000), corr=[('duplication', corr)],
+    return _generic.run_semantic(ctx, MODULE, LEVEL, RULE, flags, 'voc', {'literal_duplication', 'ast'}, EXTRA, (110, 700), (80, 3000), corr=[('duplication', corr), ('theorem side conditions on real rewrites', semcond)],
                                  n_inst=5, facts_over='in', outp_choices=('auto',), one_to_one=True, generators=[tgen.GENERATORS['duplication']],
                                  assumptions=("the pass's syntactic decisions are not derived from the ground-level side conditions in Lean (validated by the oracle)", 'instances range over the declared/auto-detected input predicates only'))
 
